@@ -107,6 +107,23 @@ def json_path_constants(node):
     return out
 
 
+# how many entries of a caller-supplied dictionary are unrolled when a statement is built from it (quick: none and two -
+# two shows every separator; thorough adds one and three)
+UNROLL = (0, 2)
+
+
+def thorough(prog, rep):
+    """The same checks with the dictionary parameters unrolled to 0, 1, 2 and 3 entries (every statement the builders can
+    emit for up to three properties / ids), so that separators and trailing-separator trimming are seen for each length."""
+    global UNROLL
+    UNROLL = (0, 1, 2, 3)
+    try:
+        run(prog, rep)
+    finally:
+        UNROLL = (0, 2)
+    rep.extra['thorough_unroll'] = [0, 1, 2, 3]
+
+
 def run(prog, rep):
     rep.extra['explanation'] = (
         'Every statement template that can reach the Neo4j driver is reconstructed statically: for each '
@@ -147,7 +164,7 @@ def run(prog, rep):
 
             def module_const(name, _mod=m):
                 return _mod.assigns.get(name)
-            interp = Interp(fn, resolver=resolver, module_const=module_const)
+            interp = Interp(fn, resolver=resolver, module_const=module_const, unroll=UNROLL, max_paths=(512 if len(UNROLL) <= 2 else 60000))
             try:
                 sites = interp.run()
             except AnalysisError as e:
